@@ -737,6 +737,9 @@ func evalCall(e *Expr, env *Env) (Val, error) {
 		if args[0].K != 'T' {
 			return Val{}, dom("json of non-text")
 		}
+		if !json.Valid([]byte(args[0].T)) {
+			return Val{}, dom("json of text that is no JSON document")
+		}
 		var m map[string]any
 		dec := json.NewDecoder(strings.NewReader(args[0].T))
 		if err := dec.Decode(&m); err != nil || m == nil {
